@@ -369,6 +369,58 @@ def random_world_spec(rng, nlayers=None, magnitude=None, n_active=None, nwn=None
     return spec
 
 
+def make_free_route(rng, spec):
+    """Give the world its composition by the other documented route: a chemistry read from a file
+    (``chemistry_type = makefree+file``), made free with the shipped MakeFreeMixin -- the main constituents and some of
+    the trace gases come from the file, every trace gas of the world is injected with ``addGas`` (those that are in the
+    file as well are thereby forced).  The mixture is what the mixin documents: all profiles divided by their sum."""
+    n = spec['nlayers']
+    fills = list(spec['fill_gases'])
+    trace = [g['mol'] for g in spec['gases']]
+    forced = [m for m in trace if rng.random() < 0.4]
+    file_only = [m for m in INACTIVE_TRACE_POOL + ['CO2', 'H2O'] if m not in trace and m not in fills and rng.random() < 0.25]
+    gases = fills + forced + file_only
+    cols = {}
+    for m in forced + file_only:
+        cols[m] = 10 ** rng.uniform(-9, -2) * (np.ones(n) if rng.random() < 0.5 else 10 ** rng.uniform(-1, 0, n))
+    ratios = [1.0] + [float(r) for r in spec['fill_ratio']]
+    rest = 1.0 - sum(cols.values()) if cols else np.ones(n)
+    for m, r in zip(fills, ratios):
+        cols[m] = rest * r / sum(ratios)
+    spec['makefree'] = {'file_gases': gases, 'table': np.column_stack([cols[m] for m in gases]), 'forced': forced,
+                        'file_only': file_only}
+    return spec
+
+
+def build_makefree_chemistry(spec):
+    import tempfile
+    from taurex.mixin import enhance_class, MakeFreeMixin
+    from taurex.data.profiles.chemistry import ChemistryFile
+    mf = spec['makefree']
+    fd, fn = tempfile.mkstemp(suffix='.dat', prefix='vmon_chem_')
+    os.close(fd)
+    try:
+        np.savetxt(fn, mf['table'], fmt='%.17e')
+        chem = enhance_class(ChemistryFile, MakeFreeMixin, gases=list(mf['file_gases']), filename=fn)
+    finally:
+        os.remove(fn)
+    for g in spec['gases']:
+        chem.addGas(build_gas(g, spec['pmin'], spec['pmax']))
+    return chem
+
+
+def makefree_reference(spec, nlayers, T, P, altitude=None, gases=None):
+    """{molecule: mixing ratio per layer} of a makefree world, from the file table and freshly built gas profiles."""
+    mf = spec['makefree']
+    X = {m: np.array(mf['table'][:, i], dtype=float) for i, m in enumerate(mf['file_gases'])}
+    for g in (spec['gases'] if gases is None else gases):
+        o = build_gas(g, spec['pmin'], spec['pmax'])
+        o.initialize_profile(nlayers, T, P, altitude)
+        X[g['mol']] = np.array(o.mixProfile, dtype=float) * np.ones(nlayers)
+    tot = sum(X.values())
+    return {m: v / tot for m, v in X.items()}
+
+
 def install_opacities(spec, scale=1.0):
     """Register the world's tables as in-memory opacities; returns {mol: opacity object}."""
     from taurex.cache import OpacityCache
@@ -394,10 +446,13 @@ def build_model(spec, kind='transmission', **model_kw):
     pressure = SimplePressureProfile(nlayers=spec['nlayers'], atm_min_pressure=spec['pmin'],
                                      atm_max_pressure=spec['pmax'])
     temperature = build_temperature(spec['temperature'], spec['pmin'], spec['pmax'], spec['nlayers'])
-    ratio = list(spec['fill_ratio'])
-    chem = TaurexChemistry(fill_gases=list(spec['fill_gases']), ratio=ratio if len(ratio) != 1 else ratio[0])
-    for g in spec['gases']:
-        chem.addGas(build_gas(g, spec['pmin'], spec['pmax']))
+    if spec.get('makefree'):
+        chem = build_makefree_chemistry(spec)
+    else:
+        ratio = list(spec['fill_ratio'])
+        chem = TaurexChemistry(fill_gases=list(spec['fill_gases']), ratio=ratio if len(ratio) != 1 else ratio[0])
+        for g in spec['gases']:
+            chem.addGas(build_gas(g, spec['pmin'], spec['pmax']))
     klass = {'transmission': TransmissionModel, 'emission': EmissionModel, 'directimage': DirectImageModel}[kind]
     model = klass(planet=planet, star=star, pressure_profile=pressure, temperature_profile=temperature,
                   chemistry=chem, **model_kw)
@@ -476,6 +531,7 @@ def spec_summary(spec):
         'nlayers': spec['nlayers'], 'P': ['%.3g' % spec['pmax'], '%.3g' % spec['pmin']],
         'T': spec['temperature']['kind'] + ('*scaled' if spec['temperature'].get('scale') else ''), 'magnitude': spec['magnitude'],
         'gases': [(g['mol'], g['kind']) for g in spec['gases']], 'fill': spec['fill_gases'],
+        'chemistry': 'makefree+file' if spec.get('makefree') else 'free',
         'tables': {m: list(t['xsec'].shape) for m, t in spec['tables'].items()},
         'contributions': [c if isinstance(c, str) else c['name'] for c in spec['contributions']],
         'interp': spec.get('interpolation'),
